@@ -92,8 +92,64 @@ fn check_implicit_sort(ctx: &mut Ctx) {
     }
 }
 
+/// `sort … | limit n` prints the first n rows (`limit -n`: the last n) of what `sort …` alone
+/// prints — whatever the sorter does to save work when a limit follows.  Raw rows with FEW distinct
+/// key values, so that the cut falls inside a group of rows that tie on the sort key and the
+/// documented tie-break (the remaining columns) decides which of them are kept.
+pub fn check_sort_then_limit(ctx: &mut Ctx, fam: &str) {
+    let n = ctx.budget(160, 5000);
+    for _ in 0..n {
+        let mut r = ctx.rng.fork();
+        let rows = 3 + r.below(14);
+        let dom = 1 + r.below(3);
+        let input: String = (0..rows)
+            .map(|_| {
+                let name: String = (0..1 + r.below(3)).map(|_| *r.pick(&['a', 'b', 'c', 'x', 'y', 'z', 'Q', '0'])).collect();
+                format!("{{\"k\":{},\"g\":\"{}\",\"name\":\"{}\",\"n\":{}}}\n", r.below(dom), r.pick(&["u", "v"]), name, r.range(-5, 5))
+            })
+            .collect();
+        let pre = *r.pick(&["", "", "", "where n > -4 | ", "fields k, g, name, n | ", "n + 1 as m | "]);
+        let sortq = *r.pick(&["sort by k", "sort by k", "sort by k desc", "sort by k desc", "sort by k, g", "sort by g desc, k", "sort by k + 0", "sort by k * 2 desc", "sort by g", "sort by n", "sort by n desc", "sort by k asc, g desc"]);
+        let lim: i64 = if r.chance(25) { -(1 + r.below(rows + 1) as i64) } else { 1 + r.below(rows + 1) as i64 };
+        let post = *r.pick(&["", "", "", " | fields name, k", " | where k >= 0", " | n as z"]);
+        let q_full = format!("* | json | {}{}", pre, sortq);
+        let q_lim = format!("{} | limit {}{}", q_full, lim, post);
+        let q_ref = format!("{}{}", q_full, post);
+        let key = ckey(&q_lim, input.as_bytes());
+        let info = serde_json::json!({"query": q_lim, "reference_query": q_ref, "input": input});
+        let (a, b) = (imp::run(&q_lim, input.as_bytes(), "json", 10), imp::run(&q_ref, input.as_bytes(), "json", 10));
+        if !a.compiled || !b.compiled || a.panicked.is_some() || b.panicked.is_some() || a.hung || b.hung {
+            ctx.case(fam, "", "skip", serde_json::json!({"why": "rejected or crashed (judged elsewhere)", "case": info}));
+            continue;
+        }
+        let table = |out: &[u8]| -> Option<Vec<J>> {
+            match canon::parse(String::from_utf8_lossy(out).trim_end()) {
+                Ok(J::Arr(rows)) => Some(rows.iter().map(canon::normalize).collect()),
+                _ => None,
+            }
+        };
+        let (got, all) = match (table(&a.stdout), table(&b.stdout)) {
+            (Some(x), Some(y)) => (x, y),
+            _ => {
+                ctx.case(fam, "", "skip", serde_json::json!({"why": "output is not one JSON table", "case": info}));
+                continue;
+            }
+        };
+        // row-wise stages after the limit keep one row per row here (`where k >= 0` keeps all)
+        let m = lim.unsigned_abs() as usize;
+        let want: Vec<J> = if lim > 0 { all.iter().take(m).cloned().collect() } else { all.iter().skip(all.len().saturating_sub(m)).cloned().collect() };
+        if got == want {
+            ctx.case(fam, &key, "pass", info);
+        } else {
+            ctx.case(fam, &key, "viol", serde_json::json!({"class": "", "what": format!("`… | limit {}` does not print the {} {} rows of the sorted table", lim, if lim > 0 { "first" } else { "last" }, m),
+                "got": format!("{:?}", got), "want": format!("{:?}", want), "case": info}));
+        }
+    }
+}
+
 pub fn check(ctx: &mut Ctx) {
     check_implicit_sort(ctx);
+    check_sort_then_limit(ctx, "sort-then-limit");
     // ---- 1. order laws on all triples of the pool (real `Ord for Value`), and model = implementation
     let pool = vals::pool();
     let np = pool.len();
